@@ -9,20 +9,20 @@ namespace Kopf.C20
 set_option maxHeartbeats 4000000 in
 theorem InvB.pres_g3 {cfg : Cfg} {s s' : State} {l : Label} (hI : InvB s)
     (hg : l.grp = 3) (h : step cfg s l = some s') : InvB s' := by
-  obtain ⟨h1, h2, h3, h4, h5, h6, h7, h8, h9, h10⟩ := hI
+  obtain ⟨h1, h2, h3, h4, h5, h6, h7, h8, h9, h10, h11, h12, h13⟩ := hI
   cases l <;> simp only [step] at h
   all_goals (first | (exfalso; simp [Label.grp] at hg; done) | skip)
   all_goals (repeat' (split at h))
   all_goals (first | (cases h; done) | skip)
   all_goals (cases h)
-  all_goals (try simp only [noLiveWorkerOf_iff, noLiveSub_iff] at *)
-  all_goals (refine ⟨?_, ?_, ?_, ?_, ?_, ?_, ?_, ?_, ?_, ?_⟩)
+  all_goals (try simp only [noLiveWorkerOf_iff, noLiveSub_iff, noLiveStream_iff] at *)
+  all_goals (refine ⟨?_, ?_, ?_, ?_, ?_, ?_, ?_, ?_, ?_, ?_, ?_, ?_, ?_⟩)
   all_goals (first | exact h1 | exact h2 | exact h3 | exact h4 | exact h5 | exact h6 | exact h7 | exact h8
-                   | exact h9 | exact h10 | skip)
+                   | exact h9 | exact h10 | exact h11 | exact h12 | exact h13 | skip)
   all_goals (try simp only [kind_orchestrator_iff, kind_killer_iff, kind_flagChecker_iff, kind_ultimate_iff,
     kind_startupCleanup_iff, kind_coreWatch_iff] at *)
   all_goals (try subst_vars)
   all_goals (try dsimp only)
-  all_goals (grind [upd, Root.kind, TS.active, TS.live, TS.ended, TS.isStopping, watcherLike, failTS, cancelSubs, cancelRoots, cancelRootsV, Pend.ts])
+  all_goals (grind [upd, Root.kind, TS.active, TS.live, TS.ended, TS.isStopping, watcherLike, failTS, cancelSubs, cancelPingers, cancelRoots, cancelRootsV, Pend.ts])
 
 end Kopf.C20
